@@ -221,6 +221,10 @@ def run(ctx):
             ctx.check(not sites, "G7", "%s::%s" % (a["name"], meth), "%s::%s() has no panic edge, overflow-checked operation or may-panic callee" % (a["name"], meth),
                       i[0].get("span", ""), how="closure of %d instance(s), 0 sites" % len(cl), why="sites: %s" % [s.key()[:80] for s in sites[:3]], nontrivial=False)
     ctx.floor("G7", "plain accessors without panic edges", n_plain, 45)
+    mm_ = L.adt(F, "multiboot2", "VBEMemoryModel")
+    got_ = {v["discr"]: v["name"] for v in (mm_ or {}).get("variants", [])}
+    ctx.check(got_ == S.VBE_MEMORY_MODELS, "G9", "enum:VBEMemoryModel", "VBEMemoryModel discriminants are the VBE 3.0 memory model numbers 0..7",
+              (mm_ or {}).get("span", ""), how=str(got_), why="have %s, specified %s" % (got_, S.VBE_MEMORY_MODELS), nontrivial=False)
     n_fc = TT.flag_constants(ctx, F, S.VBE_FLAG_CONSTANTS, "G9", "VBE 3.0 bit assignment")
     ctx.floor("G9", "VBE flag constants", n_fc, 15)
     ctx.import_prop("C03")
